@@ -83,8 +83,14 @@ func c07Gen(r *zsim.Run) c07Scenario {
 	if o.Intn(4) == 1 {
 		sc.genSleep = 1 + o.Intn(3)
 	}
-	if faulty && f.Intn(8) == 7 {
+	if faulty && f.Intn(5) == 4 {
 		sc.genPanic = f.Intn(n + 1)
+		if n > 0 && f.Intn(2) == 1 {
+			// two callbacks panic in the same call: only one of them can be recorded
+			it := &sc.items[f.Intn(n)]
+			it.act = actPanic
+			it.actAfter = f.Intn(it.writes + 1)
+		}
 	}
 	sc.redWrites = zsim.Pick(o, 1, 1, 0, 2)
 	if o.Intn(3) == 2 {
@@ -281,8 +287,12 @@ func c07Run(r *zsim.Run) {
 	sc := c07Gen(r)
 	if r.Fault.Intn(4) == 3 {
 		// some runs also stall tasks at arbitrary scheduling points (pre-emption / GC pause) for up to 40 ms of virtual time
-		r.StallOdds = 300
 		r.StallUnit = time.Millisecond
+		if k := r.Fault.Intn(4); k == 3 {
+			r.StallSites = 6 // every visit of one class of sites stalls
+		} else {
+			r.StallOdds = []int{300, 40, 8}[k]
+		}
 	}
 	st := &c07State{r: r, sc: sc, mapped: map[int]int{}, written: map[int]int{}, reduced: map[int]int{}, ctxDoneAt: -1}
 	r.Logf("scenario entry=%s workers=%d items=%+v genSleep=%d genPanic=%d red=(mode %d m %d writes %d) ctx=(%d %v)",
